@@ -430,7 +430,13 @@ class QvmCpu:
         self.last_trap = code
         self.last_trap_kwargs = kwargs
 
-        if not self.error_handler_active and \
+        # A keyboard interrupt is not a run-time error of the program:
+        # like Ctrl+Break in QBASIC it always stops the run and is never
+        # handed to ON ERROR (it can arrive in the middle of any
+        # statement, e.g. between a call and the callee's frame set-up,
+        # from where no statement can be resumed).
+        if code != TrapCode.KEYBOARD_INTERRUPT and \
+           not self.error_handler_active and \
            self.trap_target is not None:
             self._unwind_statement()
             if self.trap_target == 'next':
